@@ -173,7 +173,9 @@ class Assign:
         try:
             dest = scope[glom](dest_target, dest_path, scope)
         except PathAccessError as pae:
-            if not self.missing:
+            # (an error with another path comes from a step's argument: a T
+            # that failed, not a segment of the destination that is absent)
+            if not self.missing or pae.path != dest_path:
                 raise
 
             # the rest of the path applies to the object being built, not to the scope
